@@ -321,6 +321,8 @@ package parser
 //@   params p, allowMultiple
 //@   include ParseFrame
 //@   requires p != nil
+// C12: the content of a brace case extends to the closing brace of that case (whatever closes the enclosing list)
+//@   ensures [C12:brace-end] (result1 == nil && allowMultiple) ==> p.curToken.Type == token.RBRACE
 //@   ensures [C20:stack-balanced] result1 == nil ==> (SameStack(p.breakStack, old(p.breakStack)) && SameStack(p.continueStack, old(p.continueStack)))
 //@   ensures [C18:located] result1 != nil ==> ErrLoc(result1)
 //@ end
@@ -688,6 +690,7 @@ package parser
 
 //@ func parseMovementValue
 //@   include ParseFrame
+//@   ensures [C12,C14:list-end] (result1 == nil && allowMultiple) ==> p.curToken.Type == closingToken
 //@   requires p != nil
 //@   ensures [C20:stack-balanced] result1 == nil ==> (SameStack(p.breakStack, old(p.breakStack)) && SameStack(p.continueStack, old(p.continueStack)))
 //@   ensures [C18:located] result1 != nil ==> ErrLoc(result1)
